@@ -2,22 +2,45 @@
 //!
 //! Request lines
 //!   case <n> <vec|tree> num=<n> scaled=<s> mh=<max_hash> track=<0|1> otrack=<0|1> k=<ksize>
-//!   mutators (answer `mins=<list>` or `err <Variant>`):
+//!        [ok=<ksize of the second sketch>] [mol=<dna|protein|dayhoff|hp>]
+//!   mutators (answer `mins=<list>`, `err <Variant>` or — when a failed call may have changed the
+//!   sketch — `err <Variant> mins=<list>`):
 //!     add <h> <a> | set <h> <a> | rm <h> | rmmany <h,..> | clear | merge | enable | disable | inflate
+//!     addmany <h,..> | addmanya <h,..> <a,..> | addfrom | rmfrom        (add_many, add_many_with_abund,
+//!                                                                        add_from, remove_from)
+//!     word <hex> | seq <ascii> <force> | prot <ascii>                    (add_word, add_sequence, add_protein)
+//!     sigseq <ascii> <force> | sigprot <ascii>     the sketch is moved into a `Signature` (as
+//!                                           `Sketch::MinHash` / `Sketch::LargeMinHash`), `Signature::add_sequence` /
+//!                                           `add_protein` runs, the sketch is moved back out (no clone involved)
+//!     down <scaled> | downmh <max_hash>     target := target.clone().downsample_*(..)   (kept on error)
+//!     downmv <scaled>                       target := target.downsample_scaled(..) by value; on error the
+//!                                           moved sketch is gone and the slot gets a new empty one
+//!     serde                                 target := serde_json::from_str(&serde_json::to_string(&target))
+//!     conv | convr                          BOTH sketches converted to the other type through `From`
+//!                                           (`convr`: `From<&KmerMinHashBTree>`, tree → vector only);
+//!                                           answers `mins=<main> omins=<other>`
+//!   the C API of the vector type (`ffi/minhash.rs`), error code read back after every call:
+//!     cadd <h> | cadda <h> <a> | caddmany <h,..> | cword <hex> | cseq <ascii> <force> | cprot <ascii>
+//!     crm <h> | crmmany <h,..> | cclear | cmerge | caddfrom | crmfrom | csetab <h,..> <a,..> <clear>
+//!     cenable | cdisable
 //!   observers:
 //!     md5   -> hex digest through `md5sum()`
+//!     jmd5  -> the `md5sum` field of the sketch inside the JSON form of a `Signature` that holds it
 //!     cmd5  -> hex digest through the C API `kmerminhash_md5sum` (vector type only)
 //!     clone -> the sketch is replaced by its `Clone`; answers the clone's md5sum
 //!     copy  -> the *other* sketch becomes a `Clone` of this one; answers the copy's md5sum
-//!     eq    -> `main == other` (`true` / `false`)
-//!   every op except `eq` takes the prefix `o.` to act on the second sketch (binary ops then use the
-//!   main sketch as their operand).
+//!     eq    -> `main == other`;  req -> `other == main`   (`true` / `false`)
+//!   every op except `eq`/`req`/`conv`/`convr` takes the prefix `o.` to act on the second sketch
+//!   (binary ops then use the main sketch as their operand).
 //! The generator calls an observer BEFORE most mutators — the order under which a forgotten cache
-//! invalidation shows.
+//! invalidation shows — and often again right after.
 use sourmash::encodings::HashFunctions;
-use sourmash::ffi::minhash::{kmerminhash_md5sum, SourmashKmerMinHash};
-use sourmash::ffi::utils::ForeignObject;
+use sourmash::ffi::minhash::*;
+use sourmash::ffi::utils::{sourmash_err_clear, sourmash_err_get_last_code, ForeignObject};
+use sourmash::signature::{Signature, SigsTrait};
+use sourmash::sketch::Sketch;
 use sourmash::sketch::minhash::{max_hash_for_scaled, KmerMinHash, KmerMinHashBTree};
+use std::ffi::CString;
 use verif_harness::*;
 
 #[derive(Clone)]
@@ -32,35 +55,66 @@ fn err_name(e: &sourmash::Error) -> String {
     format!("err {}", n)
 }
 
+fn hash_fn(mol: &str) -> HashFunctions {
+    match mol {
+        "protein" => HashFunctions::Murmur64Protein,
+        "dayhoff" => HashFunctions::Murmur64Dayhoff,
+        "hp" => HashFunctions::Murmur64Hp,
+        _ => HashFunctions::Murmur64Dna,
+    }
+}
+
+macro_rules! on {
+    ($t:expr, $m:ident => $e:expr) => {
+        match $t {
+            Sk::V($m) => $e,
+            Sk::T($m) => $e,
+        }
+    };
+}
+
 impl Sk {
-    fn new(tree: bool, scaled: u64, k: u32, num: u32, track: bool) -> Sk {
+    fn new(tree: bool, scaled: u64, k: u32, num: u32, track: bool, hf: HashFunctions) -> Sk {
         if tree {
-            Sk::T(KmerMinHashBTree::new(scaled, k, HashFunctions::Murmur64Dna, 42, track, num))
+            Sk::T(KmerMinHashBTree::new(scaled, k, hf, 42, track, num))
         } else {
-            Sk::V(KmerMinHash::new(scaled, k, HashFunctions::Murmur64Dna, 42, track, num))
+            Sk::V(KmerMinHash::new(scaled, k, hf, 42, track, num))
         }
     }
     fn max_hash(&self) -> u64 {
-        match self {
-            Sk::V(m) => m.max_hash(),
-            Sk::T(m) => m.max_hash(),
-        }
+        on!(self, m => m.max_hash())
+    }
+    fn mins_list(&self) -> String {
+        show_nats(on!(self, m => m.mins()))
     }
     fn mins(&self) -> String {
-        format!(
-            "mins={}",
-            show_nats(match self {
-                Sk::V(m) => m.mins(),
-                Sk::T(m) => m.mins(),
-            })
-        )
+        format!("mins={}", self.mins_list())
     }
     fn md5(&self) -> String {
-        match self {
-            Sk::V(m) => m.md5sum(),
-            Sk::T(m) => m.md5sum(),
-        }
+        on!(self, m => m.md5sum())
     }
+}
+
+/// run `f` on a `Signature` that owns the sketch (moved in and out again, never cloned)
+fn in_sig<R>(tgt: &mut Sk, f: impl FnOnce(&mut Signature) -> R) -> R {
+    let dummy = || KmerMinHash::new(0, 1, HashFunctions::Murmur64Dna, 42, false, 1);
+    let owned = std::mem::replace(tgt, Sk::V(dummy()));
+    let mut sig = Signature::default();
+    sig.push(match owned {
+        Sk::V(m) => Sketch::MinHash(m),
+        Sk::T(m) => Sketch::LargeMinHash(m),
+    });
+    let r = f(&mut sig);
+    let mut out = Sketch::MinHash(dummy());
+    for s in sig.iter_mut() {
+        std::mem::swap(s, &mut out);
+    }
+    *tgt = match out {
+        Sketch::MinHash(m) => Sk::V(m),
+        Sketch::LargeMinHash(m) => Sk::T(m),
+        _ => unreachable!(),
+    };
+    r
 }
 
 struct St {
@@ -68,15 +122,53 @@ struct St {
     other: Option<Sk>,
 }
 
-fn kv<'a>(ws: &'a [&str], key: &str) -> &'a str {
+fn kv_opt<'a>(ws: &'a [&str], key: &str) -> Option<&'a str> {
     for w in ws {
         if let Some(v) = w.strip_prefix(key) {
             if let Some(v) = v.strip_prefix('=') {
-                return v;
+                return Some(v);
             }
         }
     }
-    panic!("missing {}", key)
+    None
+}
+fn kv<'a>(ws: &'a [&str], key: &str) -> &'a str {
+    kv_opt(ws, key).unwrap_or_else(|| panic!("missing {}", key))
+}
+
+fn seq_bytes(s: &str) -> Vec<u8> {
+    if s == "-" {
+        vec![]
+    } else {
+        s.as_bytes().to_vec()
+    }
+}
+
+/// error code left by the last C API call (cleared), as `err <Variant>`
+fn ffi_err() -> Option<String> {
+    let code = unsafe { sourmash_err_get_last_code() } as u32;
+    unsafe { sourmash_err_clear() };
+    let name = match code {
+        0 => return None,
+        1 => "Panic",
+        101 => "MismatchKSizes",
+        102 => "MismatchDNAProt",
+        103 => "MismatchScaled",
+        104 => "MismatchSeed",
+        106 => "NonEmptyMinHash",
+        108 => "NeedsAbundanceTracking",
+        109 => "CannotUpsampleScaled",
+        1101 => "InvalidDNA",
+        1102 => "InvalidProt",
+        1103 => "InvalidCodonLength",
+        1104 => "InvalidHashFunction",
+        c => return Some(format!("err code{}", c)),
+    };
+    Some(format!("err {}", name))
+}
+
+fn handle(m: &mut KmerMinHash) -> *mut SourmashKmerMinHash {
+    m as *mut KmerMinHash as *mut SourmashKmerMinHash
 }
 
 fn step(st: &mut St, ws: &[&str]) -> String {
@@ -86,24 +178,55 @@ fn step(st: &mut St, ws: &[&str]) -> String {
         let mh: u64 = kv(ws, "mh").parse().unwrap();
         let num: u32 = kv(ws, "num").parse().unwrap();
         let k: u32 = kv(ws, "k").parse().unwrap();
+        let ko: u32 = kv_opt(ws, "ok").map(|v| v.parse().unwrap()).unwrap_or(k);
         let track = kv(ws, "track") == "1";
         let otrack = kv(ws, "otrack") == "1";
-        let main = Sk::new(tree, scaled, k, num, track);
+        let hf = hash_fn(kv_opt(ws, "mol").unwrap_or("dna"));
+        let main = Sk::new(tree, scaled, k, num, track, hf.clone());
         if main.max_hash() != mh {
             st.main = None;
             st.other = None;
             return format!("err max_hash {}", main.max_hash());
         }
         st.main = Some(main);
-        st.other = Some(Sk::new(tree, scaled, k, num, otrack));
+        st.other = Some(Sk::new(tree, scaled, ko, num, otrack, hf));
         return "ok".into();
     }
-    if ws[0] == "eq" {
-        return match (st.main.as_ref().unwrap(), st.other.as_ref().unwrap()) {
-            (Sk::V(a), Sk::V(b)) => (a == b).to_string(),
-            (Sk::T(a), Sk::T(b)) => (a == b).to_string(),
-            _ => unreachable!(),
-        };
+    match ws[0] {
+        "eq" | "req" => {
+            let (a, b) = (st.main.as_ref().unwrap(), st.other.as_ref().unwrap());
+            let (a, b) = if ws[0] == "eq" { (a, b) } else { (b, a) };
+            return match (a, b) {
+                (Sk::V(a), Sk::V(b)) => (a == b).to_string(),
+                (Sk::T(a), Sk::T(b)) => (a == b).to_string(),
+                _ => unreachable!(),
+            };
+        }
+        "conv" | "convr" => {
+            let by_ref = ws[0] == "convr";
+            if by_ref && matches!(st.main, Some(Sk::V(_))) {
+                return "bad-op".into();
+            }
+            let cv = |s: Sk| -> Sk {
+                match s {
+                    Sk::V(m) => Sk::T(KmerMinHashBTree::from(m)),
+                    Sk::T(m) => {
+                        if by_ref {
+                            Sk::V(KmerMinHash::from(&m))
+                        } else {
+                            Sk::V(KmerMinHash::from(m))
+                        }
+                    }
+                }
+            };
+            let a = cv(st.main.take().unwrap());
+            let b = cv(st.other.take().unwrap());
+            let out = format!("mins={} omins={}", a.mins_list(), b.mins_list());
+            st.main = Some(a);
+            st.other = Some(b);
+            return out;
+        }
+        _ => {}
     }
     let (on_other, op) = match ws[0].strip_prefix("o.") {
         Some(op) => (true, op),
@@ -120,71 +243,49 @@ fn step(st: &mut St, ws: &[&str]) -> String {
             Err(e) => err_name(&e),
         }
     };
-    let out: String = match (op, &mut tgt) {
-        ("add", Sk::V(m)) => {
-            m.add_hash_with_abundance(n(1), n(2));
-            tgt.mins()
+    // a failed call that may have changed the sketch on its way
+    let unit_mins = |r: Result<(), sourmash::Error>, t: &Sk| -> String {
+        match r {
+            Ok(()) => t.mins(),
+            Err(e) => format!("{} {}", err_name(&e), t.mins()),
         }
-        ("add", Sk::T(m)) => {
-            m.add_hash_with_abundance(n(1), n(2));
+    };
+    let pairs = |i: usize| -> Vec<(u64, u64)> { parse_nats(ws[i]).into_iter().zip(parse_nats(ws[i + 1])).collect() };
+    let out: String = match (op, &mut tgt) {
+        ("add", t) => {
+            on!(t, m => m.add_hash_with_abundance(n(1), n(2)));
             tgt.mins()
         }
         ("set", Sk::V(m)) => {
             m.set_hash_with_abundance(n(1), n(2));
             tgt.mins()
         }
-        ("rm", Sk::V(m)) => {
-            m.remove_hash(n(1));
+        ("rm", t) => {
+            on!(t, m => m.remove_hash(n(1)));
             tgt.mins()
         }
-        ("rm", Sk::T(m)) => {
-            m.remove_hash(n(1));
-            tgt.mins()
-        }
-        ("rmmany", Sk::V(m)) => {
-            let r = m.remove_many(parse_nats(ws[1]));
+        ("rmmany", t) => {
+            let r = on!(t, m => m.remove_many(parse_nats(ws[1])));
             unit(r, &tgt)
         }
-        ("rmmany", Sk::T(m)) => {
-            let r = m.remove_many(parse_nats(ws[1]));
-            unit(r, &tgt)
-        }
-        ("clear", Sk::V(m)) => {
-            m.clear();
+        ("clear", t) => {
+            on!(t, m => m.clear());
             tgt.mins()
         }
-        ("clear", Sk::T(m)) => {
-            m.clear();
-            tgt.mins()
-        }
-        ("merge", Sk::V(m)) => {
-            let r = match &src {
-                Sk::V(o) => m.merge(o),
+        ("merge", t) => {
+            let r = match (t, &src) {
+                (Sk::V(m), Sk::V(o)) => m.merge(o),
+                (Sk::T(m), Sk::T(o)) => m.merge(o),
                 _ => unreachable!(),
             };
             unit(r, &tgt)
         }
-        ("merge", Sk::T(m)) => {
-            let r = match &src {
-                Sk::T(o) => m.merge(o),
-                _ => unreachable!(),
-            };
+        ("enable", t) => {
+            let r = on!(t, m => m.enable_abundance());
             unit(r, &tgt)
         }
-        ("enable", Sk::V(m)) => {
-            let r = m.enable_abundance();
-            unit(r, &tgt)
-        }
-        ("enable", Sk::T(m)) => {
-            let r = m.enable_abundance();
-            unit(r, &tgt)
-        }
-        ("disable", Sk::V(m)) => {
-            m.disable_abundance();
-            tgt.mins()
-        }
-        ("disable", Sk::T(m)) => {
-            m.disable_abundance();
+        ("disable", t) => {
+            on!(t, m => m.disable_abundance());
             tgt.mins()
         }
         ("inflate", Sk::V(m)) => {
@@ -194,11 +295,107 @@ fn step(st: &mut St, ws: &[&str]) -> String {
             };
             unit(r, &tgt)
         }
+        ("addmany", t) => {
+            let hs = parse_nats(ws[1]);
+            let r = on!(t, m => m.add_many(&hs));
+            unit_mins(r, &tgt)
+        }
+        ("addmanya", t) => {
+            let ps = pairs(1);
+            let r = on!(t, m => m.add_many_with_abund(&ps));
+            unit_mins(r, &tgt)
+        }
+        ("addfrom", t) => {
+            let r = match (t, &src) {
+                (Sk::V(m), Sk::V(o)) => m.add_from(o),
+                (Sk::T(m), Sk::T(o)) => m.add_from(o),
+                _ => unreachable!(),
+            };
+            unit_mins(r, &tgt)
+        }
+        ("rmfrom", Sk::V(m)) => {
+            let r = match &src {
+                Sk::V(o) => m.remove_from(o),
+                _ => unreachable!(),
+            };
+            unit_mins(r, &tgt)
+        }
+        ("word", t) => {
+            let w = unhex(ws[1]);
+            on!(t, m => m.add_word(&w));
+            tgt.mins()
+        }
+        ("seq", t) => {
+            let s = seq_bytes(ws[1]);
+            let r = on!(t, m => m.add_sequence(&s, ws[2] == "1"));
+            unit_mins(r, &tgt)
+        }
+        ("prot", t) => {
+            let s = seq_bytes(ws[1]);
+            let r = on!(t, m => m.add_protein(&s));
+            unit_mins(r, &tgt)
+        }
+        ("sigseq", _) => {
+            let s = seq_bytes(ws[1]);
+            let r = in_sig(&mut tgt, |sig| sig.add_sequence(&s, ws[2] == "1"));
+            unit_mins(r, &tgt)
+        }
+        ("sigprot", _) => {
+            let s = seq_bytes(ws[1]);
+            let r = in_sig(&mut tgt, |sig| sig.add_protein(&s));
+            unit_mins(r, &tgt)
+        }
+        ("jmd5", _) => in_sig(&mut tgt, |sig| {
+            let v = serde_json::to_value(&*sig).unwrap();
+            v["signatures"][0]["md5sum"].as_str().unwrap().to_string()
+        }),
+        ("down", _) | ("downmh", _) => {
+            let by_scaled = op == "down";
+            let r = match &tgt {
+                Sk::V(m) => {
+                    let c = m.clone();
+                    if by_scaled { c.downsample_scaled(n(1)) } else { c.downsample_max_hash(n(1)) }.map(Sk::V)
+                }
+                Sk::T(m) => {
+                    let c = m.clone();
+                    if by_scaled { c.downsample_scaled(n(1)) } else { c.downsample_max_hash(n(1)) }.map(Sk::T)
+                }
+            };
+            match r {
+                Ok(x) => {
+                    tgt = x;
+                    tgt.mins()
+                }
+                Err(e) => err_name(&e),
+            }
+        }
+        ("downmv", _) => {
+            let (tree, scaled, k, num, track, hf) = match &tgt {
+                Sk::V(m) => (false, m.scaled(), m.ksize() as u32, m.num(), m.track_abundance(), m.hash_function()),
+                Sk::T(m) => (true, m.scaled(), m.ksize() as u32, m.num(), m.track_abundance(), m.hash_function()),
+            };
+            let old = std::mem::replace(&mut tgt, Sk::new(tree, scaled, k, num, track, hf));
+            let r = match old {
+                Sk::V(m) => m.downsample_scaled(n(1)).map(Sk::V),
+                Sk::T(m) => m.downsample_scaled(n(1)).map(Sk::T),
+            };
+            match r {
+                Ok(x) => {
+                    tgt = x;
+                    tgt.mins()
+                }
+                Err(e) => format!("{} {}", err_name(&e), tgt.mins()),
+            }
+        }
+        ("serde", _) => {
+            let x = match &tgt {
+                Sk::V(m) => Sk::V(serde_json::from_str(&serde_json::to_string(m).unwrap()).unwrap()),
+                Sk::T(m) => Sk::T(serde_json::from_str(&serde_json::to_string(m).unwrap()).unwrap()),
+            };
+            tgt = x;
+            tgt.mins()
+        }
         ("md5", _) => tgt.md5(),
-        ("cmd5", Sk::V(m)) => unsafe {
-            let s = kmerminhash_md5sum(SourmashKmerMinHash::from_ref(m));
-            s.as_str().to_string()
-        },
         ("clone", _) => {
             let c = tgt.clone();
             tgt = c;
@@ -208,6 +405,95 @@ fn step(st: &mut St, ws: &[&str]) -> String {
             src = tgt.clone();
             src.md5()
         }
+        // ---- the C API (vector type only)
+        ("cmd5", Sk::V(m)) => unsafe {
+            let s = kmerminhash_md5sum(SourmashKmerMinHash::from_ref(m));
+            s.as_str().to_string()
+        },
+        (c, Sk::V(m)) if c.starts_with('c') => unsafe {
+            sourmash_err_clear();
+            let h = handle(m);
+            let known = match c {
+                "cadd" => {
+                    kmerminhash_add_hash(h, n(1));
+                    true
+                }
+                "cadda" => {
+                    kmerminhash_add_hash_with_abundance(h, n(1), n(2));
+                    true
+                }
+                "caddmany" => {
+                    let hs = parse_nats(ws[1]);
+                    kmerminhash_add_many(h, hs.as_ptr(), hs.len());
+                    true
+                }
+                "cword" => {
+                    let w = CString::new(unhex(ws[1])).unwrap();
+                    kmerminhash_add_word(h, w.as_ptr());
+                    true
+                }
+                "cseq" => {
+                    let s = CString::new(seq_bytes(ws[1])).unwrap();
+                    kmerminhash_add_sequence(h, s.as_ptr(), ws[2] == "1");
+                    true
+                }
+                "cprot" => {
+                    let s = CString::new(seq_bytes(ws[1])).unwrap();
+                    kmerminhash_add_protein(h, s.as_ptr());
+                    true
+                }
+                "crm" => {
+                    kmerminhash_remove_hash(h, n(1));
+                    true
+                }
+                "crmmany" => {
+                    let hs = parse_nats(ws[1]);
+                    kmerminhash_remove_many(h, hs.as_ptr(), hs.len());
+                    true
+                }
+                "cclear" => {
+                    kmerminhash_clear(h);
+                    true
+                }
+                "cmerge" | "caddfrom" | "crmfrom" => {
+                    let o = match &src {
+                        Sk::V(o) => SourmashKmerMinHash::from_ref(o),
+                        _ => unreachable!(),
+                    };
+                    match c {
+                        "cmerge" => kmerminhash_merge(h, o),
+                        "caddfrom" => kmerminhash_add_from(h, o),
+                        _ => kmerminhash_remove_from(h, o),
+                    };
+                    true
+                }
+                "csetab" => {
+                    let (hs, abs) = (parse_nats(ws[1]), parse_nats(ws[2]));
+                    let k = hs.len().min(abs.len());
+                    kmerminhash_set_abundances(h, hs.as_ptr(), abs.as_ptr(), k, ws[3] == "1");
+                    true
+                }
+                "cenable" => {
+                    kmerminhash_enable_abundance(h);
+                    true
+                }
+                "cdisable" => {
+                    kmerminhash_disable_abundance(h);
+                    true
+                }
+                _ => false,
+            };
+            if !known {
+                "bad-op".into()
+            } else {
+                match ffi_err() {
+                    None => tgt.mins(),
+                    // only the sequence entry points can fail after having changed the sketch
+                    Some(e) if c == "cseq" || c == "cprot" => format!("{} {}", e, tgt.mins()),
+                    Some(e) => e,
+                }
+            }
+        },
         _ => "bad-op".into(),
     };
     if on_other {
@@ -218,6 +504,233 @@ fn step(st: &mut St, ws: &[&str]) -> String {
     out
 }
 
+// ------------------------------------------------------------------------------------ generator
+
+/// Hash universe of the explicit hash arguments: a prefix-free set of decimal strings — "0", 19-digit
+/// numbers whose first digit is 2..9, and 20-digit numbers (10^19 ..= u64::MAX, first digit 1) — so
+/// that different hash lists always have different md5 preimages: the unseparated-preimage ambiguity
+/// (known finding, corpus/C13/preimage.ops) cannot be hit by accident and `eq` is decided by ksize
+/// and hashes alone.  Both digit lengths of large u64 values are exercised.  (k-mer hashes of the
+/// sequence ops are arbitrary 64-bit values; an accidental coincidence of two digit strings needs a
+/// 60-bit collision.)  The ksize sets {7,21,31,51} and {21,30,33,57} are prefix-free too.
+fn pick_hash(r: &mut Rng) -> u64 {
+    let lo = 2_000_000_000_000_000_000u64;
+    let hi = 9_999_999_999_999_999_999u64;
+    let big = 10_000_000_000_000_000_000u64;
+    match r.below(10) {
+        0..=6 => r.range(lo, hi),
+        7..=8 => r.range(big, u64::MAX),
+        _ => u64::MAX - r.below(3),
+    }
+}
+
+struct Gen {
+    tree: bool,
+    protein: bool,
+    k: u32,
+    ko: u32,
+    pool: [u64; 8],
+}
+
+impl Gen {
+    fn hash(&self, r: &mut Rng) -> u64 {
+        match r.below(20) {
+            0..=1 => 0,
+            2..=15 => *r.pick(&self.pool),
+            _ => pick_hash(r),
+        }
+    }
+    fn abund(&self, r: &mut Rng) -> u64 {
+        match r.below(10) {
+            0..=5 => 1,
+            6..=7 => r.range(0, 3),
+            8 => 0,
+            _ => r.bits(20),
+        }
+    }
+    fn hashes(&self, r: &mut Rng, max: u64) -> Vec<u64> {
+        let n = r.range(0, max);
+        (0..n).map(|_| self.hash(r)).collect()
+    }
+    fn dna(&self, r: &mut Rng, k: u32) -> String {
+        let k = k as u64;
+        let len = match r.below(20) {
+            0..=13 => k + r.range(0, 10),
+            14..=16 => r.range(0, k.saturating_sub(1)),
+            _ => k + r.range(10, 40),
+        };
+        let lower = r.chance(1, 10);
+        let mut s: Vec<u8> = (0..len)
+            .map(|_| if lower { *r.pick(b"acgt") } else { *r.pick(b"ACGT") })
+            .collect();
+        if !s.is_empty() && r.chance(2, 5) {
+            // an invalid base; towards the end most of the time, so that valid k-mers precede it
+            let p = if r.chance(2, 3) { r.range(len * 2 / 3, len - 1) } else { r.below(len) } as usize;
+            s[p] = *r.pick(b"NXRYnx.*");
+            if r.chance(1, 4) {
+                let q = r.below(len) as usize;
+                s[q] = *r.pick(b"NXn");
+            }
+        }
+        if s.is_empty() {
+            "-".into()
+        } else {
+            String::from_utf8(s).unwrap()
+        }
+    }
+    fn prot(&self, r: &mut Rng, k: u32) -> String {
+        let w = (k / 3) as u64;
+        let len = match r.below(10) {
+            0..=6 => w + r.range(0, 8),
+            7 => r.range(0, w.saturating_sub(1)),
+            _ => w + r.range(8, 25),
+        };
+        let s: Vec<u8> = (0..len)
+            .map(|_| {
+                if r.chance(1, 12) {
+                    *r.pick(b"XBZ*acdw")
+                } else {
+                    *r.pick(b"ACDEFGHIKLMNPQRSTVWY")
+                }
+            })
+            .collect();
+        if s.is_empty() {
+            "-".into()
+        } else {
+            String::from_utf8(s).unwrap()
+        }
+    }
+    fn word(&self, r: &mut Rng) -> String {
+        let len = r.range(0, 12);
+        let w: Vec<u8> = (0..len).map(|_| *r.pick(b"ACGTacgtNXYZ0189_")).collect();
+        hex(&w)
+    }
+    /// one mutator request (without the `o.` prefix); the flag says "always observe afterwards"
+    fn mutator(&self, r: &mut Rng, on_o: bool) -> (String, bool) {
+        let k = if on_o { self.ko } else { self.k };
+        let c_api = !self.tree && r.chance(1, 4);
+        let seqlike = |r: &mut Rng, g: &Gen| -> String {
+            if g.protein && r.chance(1, 2) {
+                g.prot(r, k)
+            } else {
+                g.dna(r, k)
+            }
+        };
+        match r.below(100) {
+            0..=21 => {
+                let (h, ab) = (self.hash(r), self.abund(r));
+                if c_api {
+                    if r.chance(1, 2) {
+                        (format!("cadd {}", h), false)
+                    } else {
+                        (format!("cadda {} {}", h, ab), false)
+                    }
+                } else {
+                    (format!("add {} {}", h, ab), false)
+                }
+            }
+            22..=26 => {
+                let (h, ab) = (self.hash(r), self.abund(r));
+                if self.tree {
+                    (format!("add {} {}", h, ab), false)
+                } else {
+                    (format!("set {} {}", h, ab), false)
+                }
+            }
+            27..=33 => (format!("{} {}", if c_api { "crm" } else { "rm" }, self.hash(r)), false),
+            34..=37 => (
+                format!("{} {}", if c_api { "crmmany" } else { "rmmany" }, show_nats(self.hashes(r, 4))),
+                false,
+            ),
+            38..=41 => ((if c_api { "cclear" } else { "clear" }).into(), false),
+            42..=48 => ((if c_api { "cmerge" } else { "merge" }).into(), false),
+            49..=50 => ((if c_api { "cenable" } else { "enable" }).into(), false),
+            51..=52 => ((if c_api { "cdisable" } else { "disable" }).into(), false),
+            53..=55 => {
+                if self.tree {
+                    ("merge".into(), false)
+                } else {
+                    ("inflate".into(), false)
+                }
+            }
+            56..=62 => (
+                format!("{} {}", if c_api { "caddmany" } else { "addmany" }, show_nats(self.hashes(r, 6))),
+                true,
+            ),
+            63..=67 => {
+                let hs = self.hashes(r, 6);
+                let abs: Vec<u64> = hs.iter().map(|_| self.abund(r)).collect();
+                if c_api {
+                    (format!("csetab {} {} {}", show_nats(hs), show_nats(abs), r.below(2)), true)
+                } else {
+                    (format!("addmanya {} {}", show_nats(hs), show_nats(abs)), true)
+                }
+            }
+            68..=71 => ((if c_api { "caddfrom" } else { "addfrom" }).into(), true),
+            72..=74 => {
+                if self.tree {
+                    ("addfrom".into(), true)
+                } else {
+                    ((if c_api { "crmfrom" } else { "rmfrom" }).into(), true)
+                }
+            }
+            75..=77 => (format!("{} {}", if c_api { "cword" } else { "word" }, self.word(r)), true),
+            78..=87 => {
+                let s = seqlike(r, self);
+                let name = if c_api {
+                    "cseq"
+                } else if r.chance(1, 4) {
+                    "sigseq"
+                } else {
+                    "seq"
+                };
+                (format!("{} {} {}", name, s, r.chance(1, 3) as u8), true)
+            }
+            88..=90 => {
+                let s = if self.protein || r.chance(1, 2) { self.prot(r, k) } else { self.dna(r, k) };
+                let name = if c_api {
+                    "cprot"
+                } else if r.chance(1, 4) {
+                    "sigprot"
+                } else {
+                    "prot"
+                };
+                (format!("{} {}", name, s), true)
+            }
+            91..=93 => {
+                let sc = *r.pick(&[0u64, 1, 2, 3, 4, 5, 8, 8, 16]);
+                match r.below(4) {
+                    0 => (format!("downmv {}", sc), true),
+                    1 => {
+                        let mh = if r.chance(3, 4) { max_hash_for_scaled(sc) } else { pick_hash(r) };
+                        (format!("downmh {}", mh), true)
+                    }
+                    _ => (format!("down {}", sc), true),
+                }
+            }
+            94..=96 => ("serde".into(), true),
+            _ => ("clear".into(), false),
+        }
+    }
+    fn observer(&self, r: &mut Rng, o: &mut Out, pfx: &str) {
+        match r.below(14) {
+            13 => o.op(&format!("{}jmd5", pfx)),
+            0..=5 => o.op(&format!("{}md5", pfx)),
+            6..=7 => {
+                if self.tree {
+                    o.op(&format!("{}md5", pfx))
+                } else {
+                    o.op(&format!("{}cmd5", pfx))
+                }
+            }
+            8 => o.op(&format!("{}clone", pfx)),
+            9 => o.op(&format!("{}copy", pfx)),
+            10 => o.op("req"),
+            _ => o.op("eq"),
+        }
+    }
+}
+
 fn gen(a: &Args) {
     let mut r = Rng::new(a.seed);
     let mut o = Out::new();
@@ -226,11 +739,11 @@ fn gen(a: &Args) {
     } else if a.tier == "thorough" {
         150_000
     } else {
-        3_000
+        6_000
     };
     let scaleds: [u64; 6] = [1, 2, 3, 4, 5, 8];
     for _ in 0..ncases {
-        let tree = r.chance(1, 2);
+        let mut tree = r.chance(1, 2);
         let is_scaled = r.chance(1, 2);
         let (scaled, num) = if is_scaled {
             (*r.pick(&scaleds), 0u64)
@@ -240,8 +753,22 @@ fn gen(a: &Args) {
         let mh = max_hash_for_scaled(scaled);
         let track = r.chance(1, 2);
         let otrack = if r.chance(7, 10) { track } else { !track };
-        let k = *r.pick(&[21u32, 31, 51, 7]);
-        o.case(&format!(
+        let mol = *r.pick(&["dna", "dna", "dna", "dna", "dna", "protein", "dayhoff", "hp"]);
+        let ks: [u32; 4] = if mol == "dna" { [21, 31, 51, 7] } else { [21, 30, 33, 57] };
+        let k = *r.pick(&ks);
+        // "ksize differs" cases: the two sketches are built in step so that they hold the same hashes
+        let kdiff = r.chance(1, 6);
+        let ko = if kdiff {
+            loop {
+                let x = *r.pick(&ks);
+                if x != k {
+                    break x;
+                }
+            }
+        } else {
+            k
+        };
+        let mut line = format!(
             "{} num={} scaled={} mh={} track={} otrack={} k={}",
             if tree { "tree" } else { "vec" },
             num,
@@ -250,90 +777,94 @@ fn gen(a: &Args) {
             track as u8,
             otrack as u8,
             k
-        ));
-        // Hash universe: a prefix-free set of decimal strings — "0", 19-digit numbers whose first
-        // digit is 2..9, and 20-digit numbers (10^19 ..= u64::MAX, first digit 1) — so that
-        // different hash lists always have different md5 preimages: the unseparated-preimage
-        // ambiguity (known finding, corpus/C13/preimage.ops) cannot be hit by accident and `eq` is
-        // decided by the hashes alone.  Both digit lengths of large u64 values are exercised.
-        let lo = 2_000_000_000_000_000_000u64;
-        let hi = 9_999_999_999_999_999_999u64;
-        let big = 10_000_000_000_000_000_000u64;
-        let pick_hash = |r: &mut Rng| -> u64 {
-            match r.below(10) {
-                0..=6 => r.range(lo, hi),
-                7..=8 => r.range(big, u64::MAX),
-                _ => u64::MAX - r.below(3),
-            }
-        };
-        let mut pool = [0u64; 8];
-        for p in pool.iter_mut() {
+        );
+        if ko != k {
+            line += &format!(" ok={}", ko);
+        }
+        if mol != "dna" {
+            line += &format!(" mol={}", mol);
+        }
+        o.case(&line);
+        let mut g = Gen { tree, protein: mol != "dna", k, ko, pool: [0u64; 8] };
+        for p in g.pool.iter_mut() {
             *p = pick_hash(&mut r);
         }
-        let nops = r.range(1, 30);
+        let nops = r.range(1, if kdiff { 12 } else { 26 });
         for _ in 0..nops {
-            let hash = |r: &mut Rng| -> u64 {
-                match r.below(20) {
-                    0..=1 => 0,
-                    2..=15 => *r.pick(&pool),
-                    _ => pick_hash(r),
+            if r.chance(1, 60) {
+                // both sketches to the other type
+                if tree && r.chance(1, 2) {
+                    o.op("convr");
+                } else {
+                    o.op("conv");
                 }
-            };
-            let abund = |r: &mut Rng| -> u64 {
-                match r.below(10) {
-                    0..=5 => 1,
-                    6..=7 => r.range(0, 3),
-                    8 => 0,
-                    _ => r.bits(20),
+                tree = !tree;
+                g.tree = tree;
+                o.op(if r.chance(1, 2) { "md5" } else { "o.md5" });
+                continue;
+            }
+            if kdiff {
+                // the same content-only mutator on both sides (explicit hashes: the k-mers of a
+                // sequence depend on ksize), then compare with none / one / both digests cached
+                let (m, _) = loop {
+                    let x = g.mutator(&mut r, false);
+                    let w = x.0.split(' ').next().unwrap().to_string();
+                    if ![
+                        "seq", "cseq", "sigseq", "prot", "cprot", "sigprot", "merge", "cmerge", "inflate", "addfrom", "caddfrom", "rmfrom",
+                        "crmfrom", "down", "downmh", "downmv",
+                    ]
+                    .contains(&w.as_str())
+                    {
+                        break x;
+                    }
+                };
+                let both = r.chance(9, 10);
+                if r.chance(1, 2) {
+                    o.op(&m);
+                    if both {
+                        o.op(&format!("o.{}", m));
+                    }
+                } else {
+                    if both {
+                        o.op(&format!("o.{}", m));
+                    }
+                    o.op(&m);
                 }
-            };
+                match r.below(6) {
+                    0 => o.op("md5"),
+                    1 => o.op("o.md5"),
+                    2 => {
+                        o.op("md5");
+                        o.op("o.md5")
+                    }
+                    3 => o.op(if tree { "o.clone" } else { "cmd5" }),
+                    _ => {}
+                }
+                o.op(if r.chance(1, 2) { "eq" } else { "req" });
+                if r.chance(1, 4) {
+                    o.op(if r.chance(1, 2) { "eq" } else { "req" });
+                }
+                continue;
+            }
             let on_o = r.chance(1, 4);
             let pfx = if on_o { "o." } else { "" };
             // an observer before the mutator, most of the time
             if r.chance(3, 4) {
-                match r.below(12) {
-                    0..=5 => o.op(&format!("{}md5", pfx)),
-                    6..=7 => {
-                        if tree {
-                            o.op(&format!("{}md5", pfx))
-                        } else {
-                            o.op(&format!("{}cmd5", pfx))
-                        }
-                    }
-                    8 => o.op(&format!("{}clone", pfx)),
-                    9 => o.op(&format!("{}copy", pfx)),
-                    _ => o.op("eq"),
-                }
+                g.observer(&mut r, &mut o, pfx);
             }
-            match r.below(100) {
-                0..=44 => {
-                    let (h, ab) = (hash(&mut r), abund(&mut r));
-                    o.op(&format!("{}add {} {}", pfx, h, ab));
-                }
-                45..=51 => {
-                    let (h, ab) = (hash(&mut r), abund(&mut r));
-                    if tree {
-                        o.op(&format!("{}add {} {}", pfx, h, ab));
-                    } else {
-                        o.op(&format!("{}set {} {}", pfx, h, ab));
-                    }
-                }
-                52..=63 => o.op(&format!("{}rm {}", pfx, hash(&mut r))),
-                64..=68 => {
-                    let n = r.range(0, 4);
-                    let hs: Vec<u64> = (0..n).map(|_| hash(&mut r)).collect();
-                    o.op(&format!("{}rmmany {}", pfx, show_nats(hs)));
-                }
-                69..=74 => o.op(&format!("{}clear", pfx)),
-                75..=86 => o.op(&format!("{}merge", pfx)),
-                87..=90 => o.op(&format!("{}enable", pfx)),
-                91..=94 => o.op(&format!("{}disable", pfx)),
-                _ => {
-                    if tree {
-                        o.op(&format!("{}merge", pfx))
-                    } else {
-                        o.op(&format!("{}inflate", pfx))
-                    }
+            let (m, must) = g.mutator(&mut r, on_o);
+            o.op(&format!("{}{}", pfx, m));
+            // … and right after it
+            if must || r.chance(1, 3) {
+                if r.chance(4, 5) {
+                    let ob = match r.below(8) {
+                        0..=1 if !tree => "cmd5",
+                        2 => "jmd5",
+                        _ => "md5",
+                    };
+                    o.op(&format!("{}{}", pfx, ob));
+                } else {
+                    g.observer(&mut r, &mut o, pfx);
                 }
             }
         }
